@@ -48,6 +48,9 @@ PROPS["C11"] = {
         {"pkg": "types", "gen": TYPES_GEN, "run": "^VH_C11_TR_", "skip": BIG_T, "params": {"quick": {"n": 1}, "thorough": {"n": 1}}},
         {"pkg": "consensus", "gen": CONS_GEN, "run": "^VH_C11_(RT|TR)_", "params": {"quick": {"n": 1}, "thorough": {"n": 2}},
          "tv_harnesses": ["VH_C11_RT_State", "VH_C11_RT_V1TransactionSupplement"]},
+        {"pkg": "rhp/v4", "gen": {"skip": []}, "run": "^VH_C11_(RT|TR)_", "skip": "(FormContract|RefreshContract|RenewContract)", "params": {"quick": {"n": 1}, "thorough": {"n": 2}}},
+        {"pkg": "rhp/v2", "gen": {"skip": []}, "run": "^VH_C11_RT_", "skip": "(FormContractAdditions|FormContractRequest|LockResponse|RenewAndClearContractRequest)", "params": {"quick": {"n": 1}, "thorough": {"n": 1}}, "flags": {"quick": ["-maxpaths", "50000"], "thorough": ["-maxpaths", "50000"]}},
+        {"pkg": "rhp/v3", "gen": {"skip": []}, "run": "^VH_C11_RT_", "skip": "(InstrReadRegistryNoVersion|InstrUpdateRegistryNoType|ExecuteProgramResponse|LatestRevisionResponse|RenewContractHostAdditions|RenewContractRequest)", "params": {"quick": {"n": 1}, "thorough": {"n": 1}}, "flags": {"quick": ["-maxpaths", "50000"], "thorough": ["-maxpaths", "50000"]}},
         {"pkg": "types", "gen": TYPES_GEN, "run": "^VH_C11_RT_", "params": {"thorough": {"n": 0}}, "thorough_only": True},
         {"pkg": "types", "gen": TYPES_GEN, "run": "^VH_C11_RT_", "skip": "_(V1Block|Transaction)$", "params": {"thorough": {"n": 2}}, "flags": {"thorough": ["-maxpaths", "200000"]}, "thorough_only": True},
         {"pkg": "types", "gen": TYPES_GEN, "run": "^VH_C11_TR_(Transaction|V2Transaction)$", "params": {"thorough": {"n": 1}}, "flags": {"thorough": ["-maxpaths", "200000"]}, "thorough_only": True},
@@ -55,7 +58,7 @@ PROPS["C11"] = {
     "tv_runs": {"quick": 2, "thorough": 6},
     "bounds": {"quick": "every slice field 1 element (byte strings 1 byte), pointers non-nil, 7 policy kinds / 3 resolution kinds forked; v1 currencies inside composite v1 objects restricted to one common byte-length in {0,1,8,9,16} (all 17 lengths on V1Currency/V1SiacoinOutput themselves); truncation at every prefix length for all types except Transaction/V1Block/V2Transaction",
                "thorough": "slice lengths 0, 1 and 2; truncation also for Transaction and V2Transaction"},
-    "outside": ["values with slices longer than the bound", "multiproof block forms (V2Block, V2BlockData, V2TransactionsMultiproof): covered by C18", "types.elementLeaf (internal, decoder needs preset pointers)",
+    "outside": ["values with slices longer than the bound", "multiproof block forms (V2Block, V2BlockData, V2TransactionsMultiproof): see C18", "gateway objects (request/response views share one struct; per-direction field tables not written)", "rhp objects that embed v1 transactions/revisions or spend policies (skip lists in evidence.coverage.runs): their documented normalisations were not encoded", "types.elementLeaf (internal, decoder needs preset pointers)",
                 "canonicity of arbitrary accepted byte strings is NOT claimed: V1Currency accepts leading zero bytes and V2Transaction accepts set field bits with empty lists (the property only speaks about an object's own encoding)"],
     "stubs": ["bytes.Buffer, io.LimitedReader, bytes.Reader, encoding/binary: real library code executed"],
     "assumptions": COMMON_ASSUME + ["documented normalisations applied before comparison: StateElement.shared=false, v1 revision Payout = sentinel, V1Block.V2 = nil, nil == empty slice, times built with time.Unix(s,0)"],
@@ -361,4 +364,23 @@ PROPS["C17"] = {
 MANIFEST_TEXT["C17"] = {
     "text": "Bounded model checking, one inductive step over call sequences: from an arbitrary consensus-valid contract the real PayWithContract / RenewContract / RenewalCost are executed symbolically and the solver (linear integer rendering of the 128-bit currency arithmetic) proves the conservation identities, the exact charging of usage and risked collateral, clean failure iff funds are insufficient, rollover bounds, and that the results satisfy the consensus value relations.",
     "note": "Partial claim (refresh, formation and v1-era constructors not covered). Trusted: z3, engine, uninterpreted products/tax.",
+}
+
+RHP4_SKIP = "(FormContract|RefreshContract|RenewContract)"
+PROPS["C19"] = {
+    "runs": [
+        {"pkg": "rhp/v4", "harness": ["harness/c19/c19.go"], "run": "^VH_C19_", "params": {"quick": {"desclen": 8}, "thorough": {"desclen": 16}},
+         "flags": {"quick": ["-maxlen", "600"], "thorough": ["-maxlen", "600"]},
+         "must_reach": {"VH_C19_BatchLimits": ["end"], "VH_C19_ErrorResponse": ["end"], "VH_C19_ReadBounded": ["end"]}},
+        {"pkg": "rhp/v4", "gen": {"skip": []}, "run": "^VH_C11_RT_", "skip": RHP4_SKIP, "params": {"quick": {"n": 1}, "thorough": {"n": 2}}},
+    ],
+    "tv_runs": {"quick": 0, "thorough": 0},
+    "bounds": {"quick": "rhp/v4 framing only: account-batch objects (fund / replenish requests and responses): size measured with the real encoder at counts 0..3 on symbolic contents, affine, and size at MaxAccountBatchSize <= maxLen(); error responses with symbolic code and 8-byte description are delivered as that error and never fill the object; ReadRequest on an arbitrary over-long stream reads <= maxLen bytes (RPCVerifySectorRequest); every rhp/v4 object without a spend policy round-trips (1 element per list)",
+               "thorough": "16-byte descriptions, 2 elements per list"},
+    "outside": ["gateway handshake over net.Conn, mux streams, RHP2 ChaCha20-Poly1305 framing and tamper detection, RHP3 streams, message sequences on one connection: I/O, concurrency and AEAD code cannot be encoded", "sector-batch objects (MaxSectorBatchSize = 2^18 elements) use a 'reasonable size' bound without a protocol-defined maximum to check against", "gateway and rhp/v2, rhp/v3 length limits"],
+    "stubs": [], "assumptions": COMMON_ASSUME,
+}
+MANIFEST_TEXT["C19"] = {
+    "text": "Bounded model checking of the rhp/v4 framing code only: real encodeTo/decodeFrom/maxLen/ReadRequest/ReadResponse/WriteResponse executed symbolically; length arithmetic at the protocol's batch limits, error-response delivery for all codes/descriptions within the bound, and the read bound on an arbitrary over-long stream.",
+    "note": "Partial claim: transports (handshake, mux, AEAD) are outside reach. Trusted: engine; bytes.Buffer/bytes.Reader/io.LimitedReader run as real library code.",
 }
